@@ -17,6 +17,7 @@ type wlParams struct {
 	MergePct  int
 	ReopenPct int
 	FailPct   int
+	FaultPct  int // per cent of multi-call transactions whose Commit gets an injected write error
 	Structs   bool
 	SyncOnly  bool
 }
@@ -70,6 +71,8 @@ func genWorkload(p wlParams) *rapid.Generator[Case] {
 					ops = append(ops, big)
 					ops = append(ops, st.Ops[pos:]...)
 					st.Ops = ops
+				case p.FaultPct > 0 && len(st.Ops) >= 2 && f >= 100-p.FaultPct:
+					st.Fault = &Fault{Kind: "write", At: rapid.IntRange(0, 3).Draw(t, "faultat"), Partial: rapid.SampledFrom([]int{0, 7, 43}).Draw(t, "faultpartial")}
 				}
 				c.Steps = append(c.Steps, st)
 			}
@@ -91,6 +94,9 @@ func crashClasses(c Case, rc *recording, cs crashStats) (bool, []string) {
 	}
 	if rc.Failed > 0 {
 		classes = append(classes, "failed-transaction-in-workload")
+	}
+	if rc.Faults > 0 {
+		classes = append(classes, "commit-with-injected-write-error-in-workload")
 	}
 	if datFiles(rc.Dir) > 1 {
 		classes = append(classes, "rotation")
@@ -159,6 +165,6 @@ func runC10(c Case, st *Stats) error {
 func init() { register("C10", runC10) }
 
 func TestC10(t *testing.T) {
-	p := wlParams{Modes: []int{0, 0, 1, 2}, Segs: []int64{200, 333, 1024}, MaxSteps: 10, ReopenPct: 8, FailPct: 16, Structs: true}
+	p := wlParams{Modes: []int{0, 0, 1, 2}, Segs: []int64{200, 333, 1024}, MaxSteps: 10, ReopenPct: 8, FailPct: 16, FaultPct: 8, Structs: true}
 	runProperty(t, "C10", genWorkload(p), runC10)
 }
